@@ -1,15 +1,19 @@
 #!/bin/bash
-# usage: tools/withpatch.sh <patch.diff | -R:<commit>> <prop> [<prop> ...]   (applies to /repo, runs quick checks, undoes)
+# usage: tools/withpatch.sh <patch.diff | -R:<commit>> <prop> [<prop> ...]
+# Applies the change to a scratch worktree of /repo's HEAD (never to /repo itself), points the checks at it via LADIM2_REPO,
+# runs the quick checks (TIER=thorough for the thorough tier) and removes the worktree.
 P="$1"; shift
-cd /repo || exit 9
-if [ -n "$(git status --porcelain --untracked-files=no)" ]; then echo "repo dirty, refusing"; exit 9; fi
+WT=${MUT_WORKTREE:-/tmp/vmon_patch_wt_$$}
+git -C /repo worktree remove --force "$WT" >/dev/null 2>&1
+git -C /repo worktree add -q --detach "$WT" HEAD || exit 9
+cd "$WT" || exit 9
 if [[ "$P" == -R:* ]]; then
-  git show "${P#-R:}" | git apply -R || exit 9
+  git show "${P#-R:}" | git apply -R || { git -C /repo worktree remove --force "$WT"; exit 9; }
 else
-  git apply "$P" || exit 9
+  git apply "$P" || { git -C /repo worktree remove --force "$WT"; exit 9; }
 fi
 cd /verif
 for c in "$@"; do
-  VERIF_NOEVIDENCE=1 ./check "$c" --no-evidence ${TIER:+--tier $TIER} 2>&1 | grep -E "^\[|VIOLATION|what:|INCONCLUSIVE|HARNESS|KNOWN" | head -${LINES_MAX:-6}
+  LADIM2_REPO="$WT" ./check "$c" --no-evidence ${TIER:+--tier $TIER} 2>&1 | grep -E "^\[|VIOLATION|what:|INCONCLUSIVE|HARNESS|KNOWN" | head -${LINES_MAX:-6}
 done
-git -C /repo checkout -- .
+git -C /repo worktree remove --force "$WT"
